@@ -671,6 +671,15 @@ func (e *Enc) convert(fr *Frame, x *ssa.Convert, st *State, reach string) Val {
 	}
 	r := e.havocVal(to, "conv")
 	e.wfAssume(st, reach, r)
+	// int(math.Ceil(math.Log2(x))) for x converted from an unsigned 64-bit integer: 0..64, or the minimum integer for x == 0 (trusted float model)
+	if isFloat(from) && isInt(to) && widthOf(to) == 64 {
+		if c1, ok := x.X.(*ssa.Call); ok && c1.Common().StaticCallee() != nil && e.ctx.funcKey(c1.Common().StaticCallee()) == "math.Ceil" {
+			if c2, ok := c1.Common().Args[0].(*ssa.Call); ok && c2.Common().StaticCallee() != nil && e.ctx.funcKey(c2.Common().StaticCallee()) == "math.Log2" {
+				noteExternal("math.Ceil(math.Log2(float64(u)))")
+				e.assume(imp(reach, or(eq(r.L[0], bvLit(new(big.Int).Lsh(big.NewInt(1), 63), 64)), and(app("bvsle", c64(0), r.L[0]), app("bvsle", r.L[0], c64(64))))))
+			}
+		}
+	}
 	return r
 }
 
